@@ -592,11 +592,80 @@ func (c *Ctx) readerRules() {
 			}
 		}
 	})
-	// the batch loop: dispatcher calls that are executed repeatedly
-	var loopDisp []ssa.Instruction
+	// calling contexts inside the reader's region: chains of call sites from the reader entry down to
+	// a helper (outermost first). An emitter in a helper that serves both the batch loop and the single
+	// request is judged once per context.
+	var contextsOf func(f *ssa.Function, depth int) [][]*ssa.Call
+	contextsOf = func(f *ssa.Function, depth int) [][]*ssa.Call {
+		if f == rd || depth > 3 {
+			return [][]*ssa.Call{nil}
+		}
+		var out [][]*ssa.Call
+		for _, cs := range p.syncCallers(f) {
+			if !inReg[cs.Parent()] {
+				continue
+			}
+			for _, up := range contextsOf(cs.Parent(), depth+1) {
+				out = append(out, append(append([]*ssa.Call{}, up...), cs))
+			}
+		}
+		if len(out) == 0 {
+			return [][]*ssa.Call{nil}
+		}
+		return out
+	}
+	inLoopCtx := func(in ssa.Instruction, ch []*ssa.Call) bool {
+		if inLoop(in.Block()) {
+			return true
+		}
+		for _, cs := range ch {
+			if inLoop(cs.Block()) {
+				return true
+			}
+		}
+		return false
+	}
+	// the value of v (used in f) in calling context ch: parameters are replaced by the arguments along the chain
+	inCtx := func(v ssa.Value, f *ssa.Function, ch []*ssa.Call) ssa.Value {
+		for i := len(ch) - 1; i >= 0; i-- {
+			idx := -1
+			for k, q := range f.Params {
+				if v == ssa.Value(q) || c.isParamCopy(v, q) {
+					idx = k
+				}
+			}
+			if idx < 0 || idx >= len(ch[i].Common().Args) {
+				break
+			}
+			v, f = ch[i].Common().Args[idx], ch[i].Parent()
+		}
+		return v
+	}
+	endFrom := func(in ssa.Instruction, ch []*ssa.Call, avoid ipred) ssa.Instruction {
+		sr := newIPSearch(isEnd, avoid)
+		if sr.scan(in.Block(), instrIndex(in)+1, ch) {
+			return sr.found
+		}
+		return nil
+	}
+	type emitCtx struct {
+		in ssa.Instruction
+		ch []*ssa.Call
+	}
+	var loopDisp, loopErr []emitCtx
 	regInstrs(func(in ssa.Instruction) {
-		if isDisp(in) && inLoopIP(in) {
-			loopDisp = append(loopDisp, in)
+		if !isDisp(in) && !c.isErrFnCall(in) {
+			return
+		}
+		for _, ch := range contextsOf(in.Parent(), 0) {
+			if !inLoopCtx(in, ch) {
+				continue
+			}
+			if isDisp(in) {
+				loopDisp = append(loopDisp, emitCtx{in, ch})
+			} else {
+				loopErr = append(loopErr, emitCtx{in, ch})
+			}
 		}
 	})
 	if len(loopDisp) == 0 {
@@ -749,34 +818,29 @@ func (c *Ctx) readerRules() {
 				return ok && k == flag && in.Parent() != prov
 			}
 			for _, dsp := range loopDisp {
-				if ret := reachFromUp(dsp, isEnd, flagTest); ret != nil {
+				if ret := endFrom(dsp.in, dsp.ch, flagTest); ret != nil {
 					okAll = false
 					c.bad(rule, construct, c.ipos(ret), "the batch loop can return without reaching the closing bracket: the array is left unterminated")
 				}
 			}
 			// error replies inside the loop must not return either
-			regInstrs(func(in ssa.Instruction) {
-				if c.isErrFnCall(in) && inLoopIP(in) {
-					if ret := reachFromUp(in, isEnd, flagTest); ret != nil {
-						okAll = false
-						c.bad(rule, construct, c.ipos(ret), "an error element inside the batch aborts the array without the closing bracket")
-					}
+			for _, e := range loopErr {
+				if ret := endFrom(e.in, e.ch, flagTest); ret != nil {
+					okAll = false
+					c.bad(rule, construct, c.ipos(ret), "an error element inside the batch aborts the array without the closing bracket")
 				}
-			})
+			}
 		}
 	}
 	// (c) every emitter executed inside the loop is given the framing provider
-	regInstrs(func(in ssa.Instruction) {
-		if !(isDisp(in) || c.isErrFnCall(in)) || !inLoopIP(in) {
-			return
-		}
-		ci := in.(ssa.CallInstruction)
+	for _, e := range append(append([]emitCtx{}, loopDisp...), loopErr...) {
+		ci := e.in.(ssa.CallInstruction)
 		uses := false
 		for _, a := range ci.Common().Args {
 			if !isWriterProviderType(a.Type()) {
 				continue
 			}
-			fs := c.funcsOf(a)
+			fs := c.funcsOf(inCtx(a, e.in.Parent(), e.ch))
 			uses = len(fs) > 0
 			for _, f := range fs {
 				if f != prov {
@@ -786,9 +850,9 @@ func (c *Ctx) readerRules() {
 		}
 		if !uses {
 			okAll = false
-			c.bad(rule, construct, c.ipos(in), "an emitter inside the batch loop writes through the raw writer instead of the framing provider: its element appears without '[' / ',' in front of it")
+			c.bad(rule, construct, c.ipos(e.in), "an emitter inside the batch loop writes through the raw writer instead of the framing provider: its element appears without '[' / ',' in front of it")
 		}
-	})
+	}
 	if okAll {
 		c.ok(rule, construct, p.pos(prov.Pos()), "lazy framing provider used by every emitter in the loop; ']' iff something was emitted; no abort of the array")
 	}
@@ -805,10 +869,15 @@ func (c *Ctx) arityGate(rule string) {
 		return
 	}
 	construct := fmt.Sprintf("%s: arity check before the handler runs", fname(d))
-	dec := decodedAllocs(d)
+	dec := map[*ssa.Alloc]ssa.CallInstruction{}
+	for _, g := range c.P.cone(d) {
+		for al, ci := range decodedAllocs(g) {
+			dec[al] = ci
+		}
+	}
 	// the arity test: If on len(load decoded alloc) ==/!= <non-constant>
 	var tests []*ssa.If
-	allInstrs(d, func(in ssa.Instruction) {
+	c.P.coneInstrs(d, func(in ssa.Instruction) {
 		iff, ok := in.(*ssa.If)
 		if !ok {
 			return
@@ -875,7 +944,7 @@ func (c *Ctx) arityGate(rule string) {
 		if bo.Op == token.EQL {
 			mism = t.Block().Succs[1]
 		}
-		if w := reachFromBlock(mism, c.isUserCall, nil); w != nil {
+		if w := reachFromBlockUp(mism, c.isUserCall, nil); w != nil {
 			c.bad(rule, construct, c.ipos(w), "the handler is still reachable after an arity mismatch")
 			return
 		}
@@ -962,17 +1031,21 @@ func (c *Ctx) codeTable() {
 			if len(args) < 3 {
 				return
 			}
-			code, ok := constInt(stripConvInt(args[2]))
-			if !ok {
-				return
+			// the code may be decided elsewhere: passed in by the callers of a reply helper, or
+			// returned by a helper next to the error; each such place is a site of its own
+			for _, sv := range c.valueSites(in, args[2], 0) {
+				code, ok := constInt(stripConvInt(sv.Val))
+				if !ok {
+					continue
+				}
+				want, site := c.classifyErrSite(sv.At)
+				if site == "" {
+					continue
+				}
+				seen[want] = true
+				construct := fmt.Sprintf("%s: error code at the %s site", fname(sv.At.Parent()), site)
+				c.check(code == want, rule, construct, c.ipos(sv.At), fmt.Sprintf("%d", code), fmt.Sprintf("code %d is reported where JSON-RPC 2.0 requires %d", code, want))
 			}
-			want, site := c.classifyErrSite(in)
-			if site == "" {
-				return
-			}
-			seen[want] = true
-			construct := fmt.Sprintf("%s: error code at the %s site", fname(fn), site)
-			c.check(code == want, rule, construct, c.ipos(in), fmt.Sprintf("%d", code), fmt.Sprintf("code %d is reported where JSON-RPC 2.0 requires %d", code, want))
 		})
 	}
 	for _, w := range []int64{-32601, -32602, -32600, -32700} {
@@ -986,11 +1059,12 @@ func (c *Ctx) codeTable() {
 // classifyErrSite: which protocol rejection does this error reply belong to?
 func (c *Ctx) classifyErrSite(in ssa.Instruction) (int64, string) {
 	r := c.R
+	inDisp := r.FnDisp != nil && c.P.inCone(r.FnDisp, in)
 	for _, cf := range expandConds(impliedConds(in.Block())) {
 		switch x := cf.Cond.(type) {
 		case *ssa.Extract:
 			// found-flag returned by a resolution helper
-			if call, ok := x.Tuple.(*ssa.Call); ok && !cf.True && in.Parent() == r.FnDisp {
+			if call, ok := x.Tuple.(*ssa.Call); ok && !cf.True && inDisp {
 				if g := staticCallee(call); g != nil && c.P.allFns[g] {
 					isLk := false
 					allInstrs(g, func(y ssa.Instruction) {
@@ -1012,6 +1086,34 @@ func (c *Ctx) classifyErrSite(in ssa.Instruction) (int64, string) {
 							}
 						}
 					})
+					if !isLk {
+						// helper that returns the constant false exactly where its comma-ok lookups failed
+						allInstrs(g, func(y ssa.Instruction) {
+							rt, ok := y.(*ssa.Return)
+							if !ok || x.Index >= len(rt.Results) || constKind(blockLocalValue(rt.Results[x.Index])) != 2 {
+								return
+							}
+							for _, cf2 := range expandConds(impliedConds(rt.Block())) {
+								if cf2.True {
+									continue
+								}
+								if ex2, ok := cf2.Cond.(*ssa.Extract); ok && ex2.Index == 1 {
+									if _, ok := ex2.Tuple.(*ssa.Lookup); ok {
+										isLk = true
+									}
+								}
+								if ph, ok := cf2.Cond.(*ssa.Phi); ok {
+									for _, e := range ph.Edges {
+										if ex2, ok := e.(*ssa.Extract); ok && ex2.Index == 1 {
+											if _, ok := ex2.Tuple.(*ssa.Lookup); ok {
+												isLk = true
+											}
+										}
+									}
+								}
+							}
+						})
+					}
 					if isLk {
 						return -32601, "method-not-found"
 					}
@@ -1021,7 +1123,7 @@ func (c *Ctx) classifyErrSite(in ssa.Instruction) (int64, string) {
 			if lk, ok := x.Tuple.(*ssa.Lookup); ok && x.Index == 1 && !cf.True {
 				if mt, ok := lk.X.Type().Underlying().(*types.Map); ok {
 					if b, ok := mt.Key().Underlying().(*types.Basic); ok && b.Kind() == types.String {
-						if _, isStruct := mt.Elem().Underlying().(*types.Struct); isStruct && in.Parent() == r.FnDisp {
+						if _, isStruct := mt.Elem().Underlying().(*types.Struct); isStruct && inDisp {
 							return -32601, "method-not-found"
 						}
 					}
@@ -1029,7 +1131,7 @@ func (c *Ctx) classifyErrSite(in ssa.Instruction) (int64, string) {
 			}
 		case *ssa.Phi:
 			// ok merged from direct and alias lookups
-			if !cf.True && in.Parent() == r.FnDisp {
+			if !cf.True && inDisp {
 				for _, e := range x.Edges {
 					if ex, ok := e.(*ssa.Extract); ok {
 						if _, ok := ex.Tuple.(*ssa.Lookup); ok {
@@ -1039,7 +1141,7 @@ func (c *Ctx) classifyErrSite(in ssa.Instruction) (int64, string) {
 				}
 			}
 		case *ssa.BinOp:
-			if s, ok := lenOf(x.X); ok && in.Parent() == r.FnDisp {
+			if s, ok := lenOf(x.X); ok && inDisp {
 				_ = s
 				if (x.Op == token.NEQ && cf.True) || (x.Op == token.EQL && !cf.True) {
 					if _, isConst := x.Y.(*ssa.Const); !isConst {
@@ -1047,7 +1149,7 @@ func (c *Ctx) classifyErrSite(in ssa.Instruction) (int64, string) {
 					}
 				}
 			}
-			if in.Parent() != r.FnDisp {
+			if !inDisp {
 				// size == 0 / len(batch) == 0
 				if k, ok := constInt(stripConvInt(x.Y)); ok && k == 0 && ((x.Op == token.EQL && cf.True) || (x.Op == token.NEQ && !cf.True)) {
 					return -32600, "empty-request"
@@ -1318,4 +1420,60 @@ func (c *Ctx) isLockedWriterProvider(fn *ssa.Function) bool {
 func (c *Ctx) isSocketNextWriter(in ssa.Instruction) bool {
 	ci, ok := in.(ssa.CallInstruction)
 	return ok && strings.HasPrefix(calleeName(ci), "(*"+gorilla+".Conn).") && methodOf(ci) == "NextWriter"
+}
+
+// valueSites: the places where the value used at `at` is decided, one per calling context: if it is a
+// parameter of the enclosing function, the arguments at its synchronous call sites; if it is a result of
+// a tree helper, what that helper returns at each of its returns (recursively, bounded).
+func (c *Ctx) valueSites(at ssa.Instruction, v ssa.Value, depth int) []siteVal {
+	p := c.P
+	if depth > 4 {
+		return []siteVal{{At: at, Val: v}}
+	}
+	v = blockLocalValue(v)
+	switch x := stripConvInt(v).(type) {
+	case *ssa.Parameter:
+		fn := x.Parent()
+		idx := -1
+		for i, q := range fn.Params {
+			if q == x {
+				idx = i
+			}
+		}
+		var sites []ssa.CallInstruction
+		for _, s := range p.callers[fn] {
+			sites = append(sites, s)
+		}
+		if idx >= 0 && len(sites) > 0 && !p.asyncValueUsed(fn) {
+			var out []siteVal
+			for _, s := range sites {
+				if idx < len(s.Common().Args) {
+					out = append(out, c.valueSites(s, s.Common().Args[idx], depth+1)...)
+				}
+			}
+			return out
+		}
+	case *ssa.Extract:
+		if call, ok := x.Tuple.(*ssa.Call); ok {
+			if g := p.unbound(staticCallee(call)); g != nil && p.allFns[g] && len(g.Blocks) > 0 {
+				var out []siteVal
+				allInstrsRaw(g, func(in ssa.Instruction) {
+					if rt, ok := in.(*ssa.Return); ok && x.Index < len(rt.Results) {
+						out = append(out, c.valueSites(rt, rt.Results[x.Index], depth+1)...)
+					}
+				})
+				if len(out) > 0 {
+					return out
+				}
+			}
+		}
+	case *ssa.Phi:
+		var out []siteVal
+		for i, e := range x.Edges {
+			pred := x.Block().Preds[i]
+			out = append(out, c.valueSites(pred.Instrs[len(pred.Instrs)-1], e, depth+1)...)
+		}
+		return out
+	}
+	return []siteVal{{At: at, Val: v}}
 }
